@@ -252,6 +252,16 @@ pub fn slices(g: &Grammar) -> Vec<(&'static str, Grammar)> {
         ("let-groups", g.restrict(&[K::Identifier, K::IntegerLiteral, K::LeftParen, K::RightParen, K::Equals, K::Semicolon, K::Colon], &["annotated_lambda", "pi", "application"])),
         ("binders", g.restrict(&[K::Identifier, K::Type, K::LeftParen, K::RightParen, K::LeftCurly, K::RightCurly, K::Colon, K::ThickArrow, K::ThinArrow], &["let", "application"])),
         ("let-in-binder-domain", g.restrict(&[K::Identifier, K::LeftParen, K::RightParen, K::Colon, K::Equals, K::Semicolon, K::ThickArrow, K::ThinArrow], &["application", "non_dependent_pi", "lambda"])),
+        // every comparison operator over arithmetic operands (the class alphabet has only `<` and `==`)
+        (
+            "comparisons",
+            g.restrict(
+                &[K::Identifier, K::LeftParen, K::RightParen, K::Plus, K::Minus, K::Asterisk, K::Slash, K::LessThan, K::LessThanOrEqualTo, K::DoubleEquals, K::GreaterThan, K::GreaterThanOrEqualTo],
+                &["let", "application", "non_dependent_pi"],
+            ),
+        ),
+        // nothing but names, definitions and parentheses: groups nested in definitions and in bodies
+        ("groups-only", g.restrict(&[K::Identifier, K::LeftParen, K::RightParen, K::Equals, K::Semicolon], &["application"])),
         ("if-let", g.restrict(&[K::Identifier, K::True, K::If, K::Then, K::Else, K::Equals, K::Semicolon, K::LeftParen, K::RightParen], &["application"])),
     ]
 }
@@ -263,6 +273,7 @@ pub fn slice_bound(name: &str, tier: Tier) -> usize {
         "sums-differences-negation" | "products-quotients-negation" => tier.pick(13, 14),
         "mixed-arithmetic" => tier.pick(11, 13),
         "binders" => tier.pick(11, 15),
+        "comparisons" => tier.pick(9, 10),
         _ => tier.pick(15, 19),
     }
 }
@@ -293,7 +304,7 @@ impl Prop for C07 {
     fn evidence(&self, tier: Tier) -> EvidenceSpec {
         EvidenceSpec {
             level: "exploration",
-            rule: "(A) every token sequence up to length 4/5 over the 28 token kinds plus the line-break terminator, and of length 5/6 over a 21-symbol class alphabet, is parsed by the real `parse` and must be accepted (scoping permitting) iff it is in the set of sentences enumerated from /repo/grammar.y (read at run time); (C) no two derivations enumerated from the grammar yield the same sentence; (B) for every derivation tree up to the bounds (full alphabet, class-representative alphabet, and eight sub-grammar slices that reach 12-19 tokens) the real parse result must equal, node for node (variants, binder names, implicitness, literals, de Bruijn indices, hole shifts), the tree specified by the derivation with application / * / + chains folded to the left and parentheses honoured. evaluations = sequences + trees; non-trivial = accepted sentences + trees of at least 4 nodes that compared equal".to_owned(),
+            rule: "(A) every token sequence up to length 4/5 over the 28 token kinds plus the line-break terminator, and of length 5/6 over a 21-symbol class alphabet, is parsed by the real `parse` and must be accepted (scoping permitting) iff it is in the set of sentences enumerated from /repo/grammar.y (read at run time); (C) no two derivations enumerated from the grammar yield the same sentence; (B) for every derivation tree up to the bounds (full alphabet, class-representative alphabet, and ten sub-grammar slices that reach 9-19 tokens, one of them for all five comparison operators and both quotient and product over arithmetic operands) the real parse result must equal, node for node (variants, binder names, implicitness, literals, de Bruijn indices, hole shifts), the tree specified by the derivation with application / * / + chains folded to the left and parentheses honoured. evaluations = sequences + trees; non-trivial = accepted sentences + trees of at least 4 nodes that compared equal".to_owned(),
             assumptions: vec![
                 "the mapping production -> syntax node and the re-association rule are transcribed from the header comment of grammar.y and the property text (engine/src/model/surface.rs)".to_owned(),
                 "a parse result consisting solely of scoping / definition-order diagnostics counts as grammatical acceptance".to_owned(),
